@@ -22,6 +22,9 @@ type G struct {
 	// Avoid lists kinds that the caller wants excluded from this case (used to
 	// keep known findings from shadowing everything behind them).
 	Avoid map[string]bool
+	// LateGrowth lets generators grow a child after it was attached, where the
+	// library sizes the container when asked (see PacketOut).
+	LateGrowth bool
 }
 
 func New(t *rapid.T, budget int) *G {
